@@ -30,8 +30,8 @@ func init() {
 			r = append(r, Oblig{Harness: "vh_C19_setbp", Unroll: 12})
 			return r
 		},
-		Redirects: map[string]string{"(*go/token.FileSet).Position": "vmFsetPosition"},
-		Setup:     func(e *sym.Engine) { e.AllowInline["(go/token.Pos).IsValid"] = true },
+		Redirects:   map[string]string{"(*go/token.FileSet).Position": "vmFsetPosition"},
+		Setup:       func(e *sym.Engine) { e.AllowInline["(go/token.Pos).IsValid"] = true },
 		Bounds:      []string{"<= 4 (quick) / 6 (thorough) exec steps", "3 exec closures with distinct code identity, any successor relation", "any subset of the 3 nodes carries a line breakpoint", "session mode: run, or a pending step-into / step-over / step-out issued at depth 0..2; at every stop the client either resumes or terminates", "any one of the first three steps may panic (caller recovers)"},
 		Assumptions: []string{"exec steps are opaque", "reflect.Value.Pointer of a func is its code identity (one per function literal)", "select in (*Debugger).exec picks any ready case"},
 		Outside:     []string{"Debug's goroutine and event plumbing", "function breakpoints, path targets", "program output on real programs"},
